@@ -50,6 +50,28 @@ def strip_lean_comments(text: str) -> str:
     return "".join(out)
 
 
+def exe_root(exe: str) -> pathlib.Path:
+    """Source file of a lean_exe target, from lakefile.toml."""
+    txt = (LEAN / "lakefile.toml").read_text()
+    m = re.search(r'name = "%s"\s*\nroot = "([^"]+)"' % re.escape(exe), txt)
+    return LEAN / (m.group(1).replace(".", "/") + ".lean") if m else LEAN / "__missing__.lean"
+
+
+def lean_import_closure(files):
+    """All project source files reachable through `import` from the given files (project-local modules only)."""
+    seen, todo = {}, [pathlib.Path(f) for f in files]
+    while todo:
+        f = todo.pop()
+        if f in seen or not f.exists():
+            continue
+        seen[f] = True
+        for m in re.finditer(r"^import\s+(\S+)", strip_lean_comments(f.read_text()), re.M):
+            cand = LEAN / (m.group(1).replace(".", "/") + ".lean")
+            if cand.exists():
+                todo.append(cand)
+    return sorted(seen)
+
+
 class Driver:
     """A compiled Lean line-protocol driver (one request line -> one answer line)."""
 
@@ -160,9 +182,8 @@ class Ctx:
         else:
             # audit: forbidden tokens
             bad = []
-            for f in sorted(LEAN.rglob("*.lean")):
-                if ".lake" in f.parts:
-                    continue
+            for f in lean_import_closure([LEAN / "NunavutVerif" / "Properties" / (m + ".lean") for m in module_files]
+                                         + [exe_root(e) for e in exes]):
                 for mm in FORBIDDEN.finditer(strip_lean_comments(f.read_text())):
                     bad.append(f"{f.relative_to(LEAN)}: {mm.group(0)!r}")
             if bad:
